@@ -5,7 +5,7 @@
   Model: GrogModel/Lock.lean (internal/locking/workspace_locker.go; one transition per file-system call,
   any number of processes, crash of any process between any two of its calls).
 -/
-import GrogModel.Lemmas.LockLive
+import GrogModel.Lemmas.LockFair
 namespace Grog.C10
 open Grog.Lock
 
@@ -28,34 +28,94 @@ theorem mutex {s : State} (h : Reach s) {i j : Nat}
 example : ((solo 0 6 (init false)).pc 0).inCritical = true := by decide
 
 /-- A stale lock never blocks: in any reachable state in which no *other* process holds a flock — in
-    particular when every other process is dead, wherever in `Lock`/`Unlock` it died and whatever it left
-    at the lock path — a contender in its acquisition loop that runs alone holds the lock after at most
-    nine of its own calls. (The content of a left-over lock file plays no role in this protocol; its
-    presence is covered by both initial states `init true` / `init false`.) -/
-theorem stale_never_blocks {s : State} (h : Reach s) (w : Nat) (hw : (s.pc w).inLoop)
+    particular when every other process has been killed, wherever in `Lock`/`Unlock` it died and whatever it
+    left at the lock path — a contender at ANY point of its acquisition path (including `opened`, `locked`,
+    `statted`, `mismatch`: it may hold a descriptor, even the flock, on an inode the path no longer names)
+    that runs alone is past acquisition after at most ten of its own calls. (The content of a left-over lock
+    file plays no role in this protocol; its presence is covered by both initial states.) -/
+theorem stale_never_blocks {s : State} (h : Reach s) (w : Nat) (hw : (s.pc w).contending)
     (others : ∀ j, j ≠ w → (s.pc j).noLock) :
-    ∃ k, k ≤ 9 ∧ ∃ n, (solo w k s).pc w = .holding n :=
-  solo_acquires (inv_reach h) w hw others
+    ∃ k, k ≤ 10 ∧ ∃ n, (solo w k s).pc w = .holding n :=
+  solo_acquires_contending (inv_reach h) w hw others
 
-/-- … specialised: all other processes are dead. -/
-theorem stale_never_blocks_all_dead {s : State} (h : Reach s) (w : Nat) (hw : (s.pc w).inLoop)
-    (others : ∀ j, j ≠ w → s.pc j = .dead) :
-    ∃ k, k ≤ 9 ∧ ∃ n, (solo w k s).pc w = .holding n :=
-  stale_never_blocks h w hw (fun j hj n => by rw [others j hj]; simp [PC.owns])
+/-- … specialised: every other process is dead, has finished, or has not started (processes are indexed by
+    `Nat` and all start `idle`, so "all others dead" alone would be unsatisfiable on reachable states). -/
+theorem stale_never_blocks_others_gone {s : State} (h : Reach s) (w : Nat) (hw : (s.pc w).contending)
+    (others : ∀ j, j ≠ w → s.pc j = .dead ∨ s.pc j = .done ∨ s.pc j = .idle) :
+    ∃ k, k ≤ 10 ∧ ∃ n, (solo w k s).pc w = .holding n :=
+  stale_never_blocks h w hw (fun j hj n => by
+    rcases others j hj with e | e | e <;> rw [e] <;> simp [PC.owns])
 
-/-- hypotheses satisfiable: process 0 acquires (pre-existing lock file), is killed while holding;
-    process 1, which was waiting, then acquires alone. -/
+/-- the state used in the examples below: lock file present; 0 acquires; 1 opens the file and fails to flock;
+    0 is killed while holding -/
+def afterHolderKilled : State :=
+  run (init true) [.step 0, .step 0, .step 0, .step 0, .step 0, .step 0, .step 1, .step 1, .crash 0]
+
+theorem afterHolderKilled_reach : Reach afterHolderKilled := by
+  unfold afterHolderKilled
+  have key : ∀ (es : List Ev) (s : State), Reach s → Reach (run s es) := by
+    intro es
+    induction es with
+    | nil => intro s h; exact h
+    | cons e es ih =>
+      intro s h
+      simp only [run]
+      cases hs : step s e with
+      | none => exact ih s h
+      | some s' => exact ih s' (Reach.step e h hs)
+  exact key _ _ (Reach.init true)
+
+/-- the hypotheses of `stale_never_blocks_others_gone` hold on a reachable state — 0 dead, 1 mid-loop, all
+    others never started — and its conclusion computes. -/
 example :
-    let s := run (init true) [.step 0, .step 0, .step 0, .step 0, .step 0, .step 0, .step 1, .step 1, .crash 0]
-    s.pc 0 = .dead ∧ (s.pc 1).label = ".Close" ∧ ((solo 1 9 s).pc 1).inCritical = true := by decide
+    Reach afterHolderKilled ∧ (afterHolderKilled.pc 1).contending ∧
+    (∀ j, j ≠ 1 → afterHolderKilled.pc j = .dead ∨ afterHolderKilled.pc j = .done ∨ afterHolderKilled.pc j = .idle) ∧
+    ((solo 1 9 afterHolderKilled).pc 1).inCritical = true := by
+  have h1 : afterHolderKilled.pc 1 = .busy 0 := by decide
+  refine ⟨afterHolderKilled_reach, by rw [h1]; trivial, ?_, by decide⟩
+  intro j hj
+  match j with
+  | 0 => exact Or.inl (by decide)
+  | 1 => exact absurd rfl hj
+  | j + 2 => exact Or.inr (Or.inr (by simp [afterHolderKilled, run, step, init, State.pc, State.setPc, State.setProc, State.releaseAll]))
 
-/-- A waiter proceeds: if `hld` holds the lock, `w` is in its acquisition loop and nobody else holds a
-    flock, then after `hld` has run `Unlock()` (remove, close) — or after `hld` was killed — `w`, running
-    alone, holds the lock within nine of its own calls. -/
+/-- No contender is ever stuck (deadlock-freedom of the acquisition path): in every state the pending call of
+    a process that is trying to acquire is enabled, and a holder can always unlock. -/
+theorem contender_never_stuck (s : State) (i : Nat) :
+    ((s.pc i).contending → (step s (.step i)).isSome = true) ∧
+    (∀ n, s.pc i = .holding n → (step s (.unlock i)).isSome = true) := by
+  refine ⟨contending_enabled s i, ?_⟩
+  intro n hn; simp only [step, hn]; rfl
+
+/-- Progress under every interleaving (hence under any fair scheduler, with any number of live waiters): once
+    a process has won the flock on the inode the lock path names (`locked n` with `path = some n`), nothing the
+    other processes do — steps, crashes, unlocks, in any order and number — can take the lock from it or
+    change the path: after its next four own calls it is the holder. Only killing it stops it. -/
+theorem flock_winner_acquires {s : State} (h : Reach s) (w n : Nat) (hw : s.pc w = .locked n)
+    (hp : s.path = some n) (es : List Ev) (hes : ∀ e ∈ es, e ≠ .crash w ∧ e ≠ .unlock w)
+    (hfair : 4 ≤ countSteps w es) :
+    (run s es).pc w = .holding n := by
+  have := (winner_progress w n es s 4 (inv_reach h) (by rw [hw]; rfl) hp hes).1
+  have e0 : 4 - countSteps w es = 0 := by omega
+  rw [e0] at this
+  cases hpc : (run s es).pc w <;> rw [hpc] at this <;> simp [PC.stage] at this
+  rw [this]
+
+/-- satisfiable: 0 has won the flock; 1 and 2 contend (and 2 is killed) in between 0's calls. -/
+example :
+    let s := run (init false) [.step 0, .step 1, .step 0]
+    s.pc 0 = .locked 1 ∧ s.path = some 1 ∧
+    (run s [.step 1, .step 0, .step 2, .step 1, .step 0, .step 2, .crash 2, .step 0, .step 1, .step 0]).pc 0 = .holding 1 := by
+  decide
+
+/-- A waiter proceeds: if `hld` holds the lock, `w` is anywhere on its acquisition path (it may have opened
+    the lock file before the holder unlinks it) and nobody else holds a flock, then after `hld` has run
+    `Unlock()` (remove, close) — or after `hld` was killed — `w`, running alone, holds the lock within ten of
+    its own calls. -/
 theorem waiter_proceeds {s : State} (h : Reach s) (hld w n : Nat) (hh : s.pc hld = .holding n)
-    (hw : (s.pc w).inLoop) (hne : w ≠ hld) (others : ∀ j, j ≠ w → j ≠ hld → (s.pc j).noLock) :
-    (∃ k, k ≤ 9 ∧ ∃ m, (solo w k (run s [.unlock hld, .step hld, .step hld])).pc w = .holding m) ∧
-    (∃ k, k ≤ 9 ∧ ∃ m, (solo w k (run s [.crash hld])).pc w = .holding m) := by
+    (hw : (s.pc w).contending) (hne : w ≠ hld) (others : ∀ j, j ≠ w → j ≠ hld → (s.pc j).noLock) :
+    (∃ k, k ≤ 10 ∧ ∃ m, (solo w k (run s [.unlock hld, .step hld, .step hld])).pc w = .holding m) ∧
+    (∃ k, k ≤ 10 ∧ ∃ m, (solo w k (run s [.crash hld])).pc w = .holding m) := by
   constructor
   · -- release
     have e1 : step s (.unlock hld) = some (s.setPc hld (.unlocking n)) := by simp only [step, hh]
